@@ -81,6 +81,7 @@ inductive CKind where
   | callableObj   -- instance with `__call__` (no `__qualname__`)
   | boundMethod
   | partialObj    -- functools.partial (no `__module__`/`__qualname__`)
+  | wrapsBuiltin  -- `functools.wraps(builtin)(wrapper)`: carries the built-in's `__module__`/`__qualname__` but is another object
   deriving DecidableEq, Repr, Inhabited
 
 structure Callable where
